@@ -182,7 +182,13 @@ def lean_audit(cfg, log):
         for m in FORBIDDEN.finditer(src):
             problems.append("forbidden token %r in %s" % (m.group(0), os.path.relpath(path, VERIF)))
     with Lock("lake"):
-        rc, out = sh(["lake", "env", "lean", "--run", "Audit.lean"] + mods, cwd=LEAN)
+        # compiled auditor (lean_exe `audit`, root Audit.lean); falls back to the interpreter
+        brc, _ = sh(["lake", "build", "audit"], cwd=LEAN)
+        exe = os.path.join(LEAN, ".lake", "build", "bin", "audit")
+        if brc == 0 and os.path.exists(exe):
+            rc, out = sh(["lake", "env", exe] + mods, cwd=LEAN)
+        else:
+            rc, out = sh(["lake", "env", "lean", "--run", "Audit.lean"] + mods, cwd=LEAN)
     theorems = {}
     for line in out.splitlines():
         m = re.match(r"THEOREM (\S+) AXIOMS ?(.*)$", line)
@@ -450,8 +456,11 @@ def check(pid, tier, seed, replay=None):
     out_lines = []
     obligations_broken = []   # names of theorems / tables / build steps that no longer check
 
+    phases = {}
+    t_ph = time.time()
     # 1. translators
     ok, tables = run_translators(cfg, log)
+    phases["translators"] = round(time.time() - t_ph, 1); t_ph = time.time()
     if not ok:
         obligations_broken.append("translator failed: " + (log[-1][-800:] if log else ""))
 
@@ -461,6 +470,7 @@ def check(pid, tier, seed, replay=None):
     if not ok:
         errs = [l for l in lean_out.splitlines() if "error" in l][:8]
         obligations_broken.append("lake build failed: " + " | ".join(errs))
+    phases["lake_build"] = round(time.time() - t_ph, 1); t_ph = time.time()
     # 3. audit
     if ok:
         theorems, problems = lean_audit(cfg, log)
@@ -470,6 +480,7 @@ def check(pid, tier, seed, replay=None):
             checker_cmd += " ; lake env leanchecker " + " ".join(lean_modules(cfg))
     driver_ok = os.path.exists(os.path.join(LEAN, ".lake", "build", "bin", cfg["driver"])) if cfg.get("driver") else True
 
+    phases["audit"] = round(time.time() - t_ph, 1); t_ph = time.time()
     # 4. harness
     agg = None
     drift = source_drift(pid, prop)
@@ -480,7 +491,7 @@ def check(pid, tier, seed, replay=None):
             infra.append("harness build failed (does the repository compile?):\n" + cargo_out[-3000:])
         elif not driver_ok:
             infra.append("driver not built")
-        elif not prebuild(cfg, log):
+        elif not (phases.__setitem__("cargo_build", round(time.time() - t_ph, 1)) or prebuild(cfg, log)):
             infra.append("harness --prebuild failed:\n" + (log[-1] if log else ""))
         else:
             tcfg = cfg.get("tiers", {}).get(tier, {})
@@ -500,6 +511,9 @@ def check(pid, tier, seed, replay=None):
                     shard_outs += [f.result() for f in futs]
             agg = collect(cfg, shard_outs)
             infra += agg["infra"]
+            phases["run"] = round(time.time() - t_ph - phases.get("cargo_build", 0), 1)
+            phases["harness_s_max"] = round(max([so.get("harness_s", 0) for so in shard_outs] or [0]), 1)
+            phases["driver_s_max"] = round(max([so.get("driver_s", 0) for so in shard_outs] or [0]), 1)
 
     if infra:
         print("\n".join(log[-2:]))
@@ -564,6 +578,7 @@ def check(pid, tier, seed, replay=None):
                    n_model=len(unexplained_model))
     for l in out_lines:
         print(l)
+    print("TIMING %s" % json.dumps(phases))
     if rc == 0:
         print("OK property=%s tier=%s theorems=%d cases=%d wall=%.1fs" % (
             pid, tier, len(theorems), agg["evaluations"] if agg else 0, time.time() - t_start))
@@ -643,7 +658,7 @@ def setup():
             if cfg.get("harness_bin"):
                 bins += [cfg["harness_bin"]] + cfg.get("extra_bins", [])
     with Lock("lake"):
-        rc, out = sh(["lake", "build"] + sorted(set(drivers)), cwd=LEAN)
+        rc, out = sh(["lake", "build", "audit"] + sorted(set(drivers)), cwd=LEAN)
     print(out[-3000:])
     if rc != 0:
         return rc
